@@ -326,6 +326,7 @@ var shimOf = map[string]string{
 	"log":       "log",
 	"net/http":  "http",
 	"os/exec":   "exec",
+	"os/signal": "signal",
 	"math/rand": "rand",
 	"time":      "time",
 	"context":   "context",
